@@ -251,6 +251,7 @@ func (f *format) parseReplay(input string) string {
 // <fmt>dec \t <B|R> <bufsize> <nexts> <script: hex[+e] ...> \t per Next: "EV toks R verdict ;" ...
 func (f *format) decRun(kind string, bufsize, nexts, vfail int, steps []readStep) string {
 	var sb strings.Builder
+	after := ""
 	rec := newRecorder(vfail)
 	var dec decoderI
 	merge := func(evs []event) []event {
@@ -283,10 +284,20 @@ func (f *format) decRun(kind string, bufsize, nexts, vfail int, steps []readStep
 		o := guard(guardTime, func() { err = dec.Next() })
 		fmt.Fprintf(&sb, "EV %s R %s ; ", eventsTok(merge(rec.evs)), verdictTok(o, err))
 		if o.panicked || o.hung || (err != nil) {
+			if err != nil && err != io.EOF && !o.panicked && !o.hung {
+				// the caller tries again, with a visitor that accepts everything now: a failed
+				// stream must stay failed and deliver nothing more
+				rec.evs, rec.failAt = nil, -1
+				var err2 error
+				o2 := guard(guardTime, func() { err2 = dec.Next() })
+				if o2.panicked || o2.hung || err2 == nil || len(rec.evs) > 0 {
+					after = fmt.Sprintf(" ## C16AFTER %s/%d", verdictTok(o2, err2), len(rec.evs))
+				}
+			}
 			break
 		}
 	}
-	return strings.TrimSpace(sb.String())
+	return strings.TrimSpace(sb.String()) + after
 }
 
 func scriptTok(steps []readStep) string {
